@@ -65,6 +65,57 @@ fn list_vs_lookup(ctx: &Ctx, st: &mut Stats, index_dir_exists: bool) -> Result<(
     Ok(())
 }
 
+/// The program in a driver process whose mount namespace has a tmpfs on the index shard of key 0.
+fn run_with_mounted_shards(prog: &Program, st: &mut Stats, env: &mut WorkerEnv) -> Result<(), String> {
+    env.scratch.reset();
+    let cache = env.scratch.cache.clone();
+    let bucket = crate::reffmt::bucket_path(&cache, &prog.keys[0]);
+    let ishard = bucket.parent().and_then(|p| p.parent()).ok_or("harness: bucket path")?.to_path_buf();
+    let hex = crate::blob::hexs(&crate::blob::digest_raw(Algo::Sha256, &prog.blobs[0].bytes()));
+    let cshard = crate::reffmt::content_path(&cache, Algo::Sha256, &hex).parent().and_then(|p| p.parent()).ok_or("harness: content path")?.to_path_buf();
+    let pf = env.scratch.root.join("prog.json");
+    std::fs::write(&pf, serde_json::to_string(prog).unwrap()).map_err(|e| format!("INFRA: {e}"))?;
+    let of = env.scratch.root.join("out.jsonl");
+    let _ = std::fs::remove_file(&of);
+    let mut cmd = crate::sup::driver_cmd(&cache, &env.scratch.scratch, &pf, 0, prog.steps.len(), &of);
+    cmd.pop();
+    // (only the index: content is published by a rename from the cache's temp area, which cannot
+    // cross into a mounted content shard — a layout the library does not support)
+    let _ = &cshard;
+    let script = "mkdir -p \"$0\" && mount -t tmpfs tmpfs \"$0\" && exec \"$@\"";
+    let o = std::process::Command::new("unshare").arg("-m").arg("sh").arg("-c").arg(script).arg(&ishard).args(&cmd).stdin(std::process::Stdio::null()).stdout(std::process::Stdio::null()).stderr(std::process::Stdio::piped()).output();
+    let o = match o {
+        Ok(o) => o,
+        Err(_) => {
+            st.class("mount_namespace_unavailable");
+            return Ok(());
+        }
+    };
+    let err = String::from_utf8_lossy(&o.stderr).to_string();
+    if (err.contains("unshare") && err.contains("Operation not permitted")) || err.contains("mount:") {
+        st.class("mount_namespace_unavailable");
+        return Ok(());
+    }
+    if !o.status.success() {
+        return Err(format!("with an index shard on another filesystem: the process ended abnormally ({:?}) {}", o.status, err.chars().take(300).collect::<String>()));
+    }
+    let outs = crate::sup::read_outs(&of)?;
+    if outs.len() != prog.steps.len() {
+        return Err(format!("with an index shard on another filesystem: only {} of {} steps produced a result", outs.len(), prog.steps.len()));
+    }
+    let ctx = Ctx::new(cache, env.scratch.scratch.clone(), &prog.keys, &prog.blobs);
+    let mut model = Model::new();
+    model.pure = true;
+    for (i, o, t0, t1) in &outs {
+        st.eval(1);
+        model.step(&ctx, &prog.steps[*i], o, *t0, *t1).map_err(|e| format!("with a filesystem mounted on index-v5/<aa>: {}: {e}", basic::describe_step(prog, *i)))?;
+    }
+    st.class("shards_are_mount_points");
+    st.class("nontrivial");
+    st.nontrivial(hash_of(prog));
+    Ok(())
+}
+
 impl Engine for C10 {
     type Case = Program;
     fn id(&self) -> &'static str {
@@ -160,6 +211,16 @@ impl Engine for C10 {
                 out.push(Program { keys, blobs, steps });
             }
         }
+        // a part of the index is a mount point (another filesystem mounted on an index shard: bind
+        // mounts, subvolumes); runs in a driver process in its own
+        // mount namespace, judged by the pure model
+        for fl in [Fl::Sync, Fl::Async] {
+            let keys = vec!["mounted-shard-key".to_string(), "elsewhere".to_string()];
+            let blobs = vec![Blob::new(50, 1), Blob::new(9, 2)];
+            let w = |k: usize, b: usize| Step { op: Op::Write(WriteSpec::simple(Some(k), b)), fl };
+            let steps = vec![w(0, 0), w(1, 1), Step { op: Op::Meta { key: 0 }, fl }, Step { op: Op::Read { key: 0 }, fl }, Step { op: Op::List, fl: Fl::Sync }, Step { op: Op::Remove { key: 1 }, fl }, w(0, 1), Step { op: Op::List, fl: Fl::Sync }, Step { op: Op::Read { key: 0 }, fl }];
+            out.push(Program { keys, blobs, steps });
+        }
         // bucket files that are symbolic links (a symlink farm of a cache): lookups follow them,
         // so does the listing
         for variant in 0..3usize {
@@ -213,6 +274,9 @@ impl Engine for C10 {
         basic::program(cfg(tier))
     }
     fn run_case(&self, prog: &Program, st: &mut Stats, env: &mut WorkerEnv) -> Result<(), String> {
+        if prog.keys[0].starts_with("mounted-shard-") {
+            return run_with_mounted_shards(prog, st, env);
+        }
         env.scratch.reset();
         // the cache directory is spelled in different (equivalent) ways from case to case
         let ctx = Ctx::new(env.scratch.cache_alias(hash_of(prog) >> 3), env.scratch.scratch.clone(), &prog.keys, &prog.blobs);
